@@ -8,6 +8,8 @@ a failed call changes nothing.
 Tie: stream `pow`: synthetic header trees (difficulties from the real calculators) in many orders through the real
 ETHHandler.SyncBlockHeader on a real native service + contract cache (seal accepted by the verif hook only), the
 whole key space of the header-sync contract compared with the compiled model after every call.
+Second instance (Bitcoin variant, header_sync/btc): stream `powbtc`, header trees with REAL regtest proof of work
+through BTCHandler.SyncBlockHeader, model Poly/Model/PoWBtc.lean.
 Search: the harness evaluates the property itself on the implementation's state after every call.
 """
 from checks import C28
@@ -40,4 +42,6 @@ def run(ctx):
     if hbin:
         res = ctx.correspondence("pow", hbin, ["pow"], drv, ["pow"])
         ctx.judge(res, theorem_hint="Poly.Props.C27.* (model PoW no longer matches SyncBlockHeader / RestructChain)")
+        res2 = ctx.correspondence("powbtc", hbin, ["powbtc"], drv, ["powbtc"])
+        ctx.judge(res2, theorem_hint="Poly.Props.C27.btc_* (model PoWBtc no longer matches btc commitHeader / GetCommonAncestor / ReIndexHeaderHeight)")
     ctx.judge_lean()
